@@ -60,7 +60,7 @@ pub fn spec() -> PropSpec {
             PropCheck::new("foreign-stream", |ctx| {
                 let n = if ctx.tier == Tier::Thorough { 30 } else { 12 };
                 (gen::foreign_ops(n, 8, 3000), gen::partition()).prop_map(|(ops, partition)| Case { ops, partition }).boxed()
-            }, 15_000, 500_000, eval),
+            }, 300_000, 6_000_000, eval),
         ],
     }
 }
